@@ -77,8 +77,9 @@ class Boom(Exception):
     pass
 
 
-class CaseHang(BaseException):
-    """raised by the per-case watchdog (SIGALRM) when a history blocks, e.g. on the cache's non-reentrant lock"""
+class CaseHang(KeyboardInterrupt):
+    """raised by the per-case watchdog (SIGALRM) when a history blocks, e.g. on the cache's non-reentrant lock.
+    A KeyboardInterrupt subclass: asyncio Tasks re-raise those instead of storing them as the task's exception."""
 
 
 BLOCKED = [False]          # a history blocked in this run: stop exploring
@@ -884,7 +885,7 @@ class Run:
         def on_alarm(_sig, _frm):
             raise CaseHang
         old_handler = signal.signal(signal.SIGALRM, on_alarm)
-        signal.setitimer(signal.ITIMER_REAL, CASE_WATCHDOG_S)
+        signal.setitimer(signal.ITIMER_REAL, CASE_WATCHDOG_S, CASE_WATCHDOG_S)
         try:
             loop.run_until_complete(self._main(RequestCache))
         except CaseHang:
